@@ -79,6 +79,23 @@ fn marshal_header(
         message_builder::MessageType::Error => 3,
         message_builder::MessageType::Signal => 4,
     };
+    // every message type has header fields it can not do without; a message that lacks one is not a valid message
+    // (the decoder refuses it), so it is not marshalled either
+    let dh = &msg.dynheader;
+    let has_required_fields = match msg.typ {
+        message_builder::MessageType::Call => dh.object.is_some() && dh.member.is_some(),
+        message_builder::MessageType::Signal => {
+            dh.object.is_some() && dh.interface.is_some() && dh.member.is_some()
+        }
+        message_builder::MessageType::Error => {
+            dh.error_name.is_some() && dh.response_serial.is_some()
+        }
+        message_builder::MessageType::Reply => dh.response_serial.is_some(),
+        message_builder::MessageType::Invalid => false,
+    };
+    if !has_required_fields {
+        return Err(crate::params::validation::Error::InvalidHeaderFields.into());
+    }
     buf.push(msg_type);
 
     buf.push(msg.flags);
